@@ -366,8 +366,10 @@ fn names(t: &mut Tape, obs: &mut Obs) -> R {
     let want = tb.file.iter().find(|r| r.name == s);
     obs.nontrivial(vmodel::wire::fnv64(s.as_bytes()));
     obs.sample_class(&label, || json!({"query": s, "expected": want.map(|r| format!("{:04x}", r.id))}));
-    let routes: [(&str, Option<&'static TlsCipherSuite>); 2] =
-        [("from_name", guard("TlsCipherSuite::from_name", || TlsCipherSuite::from_name(&s))?), ("TryFrom<&str>", guard("TryFrom<&str> for &TlsCipherSuite", || <&'static TlsCipherSuite>::try_from(s.as_str()).ok())?)];
+    // (no `'static` in these annotations: whether the returned entries are `'static` is a compile-time fact checked by C18's probe package;
+    // a harness that insists on it here would merely stop compiling)
+    let routes: [(&str, Option<&TlsCipherSuite>); 2] =
+        [("from_name", guard("TlsCipherSuite::from_name", || TlsCipherSuite::from_name(&s))?), ("TryFrom<&str>", guard("TryFrom<&str> for &TlsCipherSuite", || <&TlsCipherSuite>::try_from(s.as_str()).ok())?)];
     for (rn, got) in routes {
         match (want, got) {
             (None, None) => {}
